@@ -20,6 +20,9 @@ type workloadOpts struct {
 	Cut        bool // cut a connection mid-session (C05)
 	MaxThreads int
 	MaxOps     int
+	// Large: 4-8 connections with 2-8 threads each (up to 64 clients), few
+	// requests per thread.
+	Large bool
 	Flush      bool
 	// After is called in the controller after all threads finished, before shutdown.
 	After func(w *World)
@@ -322,6 +325,12 @@ func runRandomWorkload(rcx *RunCtx, o workloadOpts) {
 		maxOps = 24
 	}
 	nops := 4 + p.Choose(maxOps)
+	if o.Large {
+		nconn = 4 + p.Choose(5)
+		perConn = 2 + p.Choose(7)
+		nops = 3 + p.Choose(8)
+		cfg.MaxSteps = 2000000
+	}
 	wgaENOSYS := p.Choose(2) == 1
 	ver := 7 - p.Choose(8)
 	capS2C := []int{0, 0, 0, 64, 256}[p.Choose(5)]
